@@ -27,7 +27,7 @@ MANIFEST = dict(
          'identifier filters, callback order shuffled, timer jitter): the observed order of arrivals, consumer pops, handler returns and main-loop polls is fed to the model driver and the '
          'spas in order, return time, closed endpoint, consumer fate, found flag and queue length are compared; the threaded twin\'s '
          '_on_discovered is compared against its own model function; direct monitors on the real locator.'
-         " Since session 3: identifier + foreign static address filters; a direct oracle on the blocking locator (each spa once, first reply's fields). Session 4: the blocking locator runs for real (its engine and retry threads, its waiting loop, a scripted OS socket, scaled waits) and the time at which start_discovery(True) returns is checked for five reply patterns. State inventory of both discovery callbacks (discovery_state_inventory).",
+         " Since session 3: identifier + foreign static address filters; a direct oracle on the blocking locator (each spa once, first reply's fields). Session 4: the blocking locator runs for real (its engine and retry threads, its waiting loop, a scripted OS socket, scaled waits) and the time at which start_discovery(True) returns is checked for five reply patterns. State inventory of both discovery callbacks (discovery_state_inventory). Discovery inside an entered task manager with the housekeeping task woken at every loop step around its start.",
     note='Partial: the timing clauses are theorems about the lockstep tick model; real timer skew is outside (jittered runs are still '
          'compared exactly because the model accepts any schedule, and the monitors bound the return time by the skew). Hypothesis kept '
          'visible: spa identifiers contain no "|" and do not start with IOS/AND (true of SPA+MAC identifiers; id_hypothesis_needed shows '
@@ -176,7 +176,9 @@ def run_script(script):
             out["spas"] = spas
             out["found"] = bool(loc._has_found_spa)
             out["queue"] = net.protocol.queue.qsize() if net.protocol is not None else -1
-            loc_tasks = [t for t in tm._tasks if t.get_name().startswith("LOC:")]
+            loc_tasks = [t for t in asyncio.all_tasks() if t.get_name().startswith("LOC:")] + \
+                        [t for t in tm._tasks if t.get_name().startswith("LOC:") and t.done()]
+            loc_tasks = list(dict.fromkeys(loc_tasks))
             out["loc_alive"] = [t.get_name() for t in loc_tasks if not t.done()]
             cons = [t for t in loc_tasks if t.get_name() == "LOC:Hello handler"]
             if not cons:
@@ -595,6 +597,76 @@ def check_sync(ctx, n):
             return
 
 
+# ---------------------------------------------------------------------- discovery inside a LIVE task manager
+def run_with_tidy_wake(k):
+    """discover() inside an ENTERED task manager (its housekeeping task runs, as under GeckoAsyncSpaMan), with the configuration mode
+    re-selected - which wakes every configuration-aware sleeper, the housekeeping task among them - at the k-th event-loop step
+    after discovery was started.  Returns the names of LOC: tasks still alive after discover() returned, the spas listed, closed?"""
+    script = {"responders": [_resp(1, b"Spa", {"0": [100]})], "arrivals": [], "filter": {}, "suspend_ms": [],
+              "sched": {"seed": 0, "shuffle": False, "jitter_ms": 0}}
+    log = []
+    net = Net(script, log)
+
+    async def body(loop):
+        import geckolib.async_locator as al
+        import geckolib.config as cfg
+        from geckolib.async_tasks import AsyncTasks
+
+        async def on_event(event, **kw):
+            pass
+        tm = AsyncTasks()
+        await tm.__aenter__()
+        await asyncio.sleep(0.3)
+        loc = al.GeckoAsyncLocator(tm, on_event)
+        before = set(asyncio.all_tasks())
+        if k < 0:
+            # the wake-up comes |k| loop steps BEFORE discovery starts (the housekeeping task is then in mid-flight when discover() registers its helpers)
+            cfg.set_config_mode(False)
+            for _ in range(-k - 1):
+                await asyncio.sleep(0)
+        task = loop.create_task(loc.discover())
+        n = [0]
+
+        def step():
+            if n[0] == k:
+                cfg.set_config_mode(False)
+            n[0] += 1
+            if n[0] <= k:
+                loop.call_soon(step)
+        loop.call_soon(step)
+        await asyncio.wait([task], timeout=40)
+        for _ in range(4):
+            await asyncio.sleep(0)
+        alive = sorted(t.get_name() for t in asyncio.all_tasks() if t not in before and t.get_name().startswith("LOC:") and not t.done())
+        out = {"returned": task.done() and not task.cancelled() and task.exception() is None, "loc_alive": alive,
+               "spas": len(loc.spas or []), "closed": bool(net.tr is not None and net.tr.closed)}
+        for t in asyncio.all_tasks():
+            if t is not asyncio.current_task():
+                t.cancel()
+        return out
+    try:
+        with qloop.watchdog(10):
+            return qloop.run_q(body, seed=0, shuffle=False, jitter_ms=0, network=net)
+    except (Exception, qloop.Hang) as e:  # noqa
+        return {"error": f"{type(e).__name__}: {e}"}
+
+
+def check_tidy_wakes(ctx, only=None):
+    for k in range(-8, 14):
+        if only is not None and k != only:
+            continue
+        res = run_with_tidy_wake(k)
+        ctx.count("evaluations")
+        inp = {"kind": "tidy-wake", "wake_at_loop_step": k}
+        if "error" in res:
+            ctx.violation("tidy-wake:raised", inp, "discovery runs", res["error"])
+            continue
+        ctx.hist("tidy_wake", "ok" if not res["loc_alive"] and res["returned"] and res["closed"] else "bad")
+        if res["loc_alive"] or not res["returned"] or not res["closed"] or res["spas"] != 1:
+            ctx.violation("tidy-wake:" + ("loc-task-alive" if res["loc_alive"] else "wrong-outcome"), inp,
+                          "discover() returns with one spa listed, its endpoint closed and its helper tasks gone (task manager live)", res)
+
+
 # ---------------------------------------------------------------------- the blocking locator, for real (threads, waiting loop)
 class _ScriptSock:
     """stands in for the OS socket of the blocking locator: scripted replies become readable at their time (seconds after the socket
@@ -765,6 +837,7 @@ def run(ctx):
         correspondence(ctx, runs)
     check_sync(ctx, 200 if ctx.quick else 8000)
     check_sync_real(ctx)
+    check_tidy_wakes(ctx)
     fam, script, res = runs[2]
     ctx.sample({"script": {k: script[k] for k in ("responders", "filter", "suspend_ms", "sched")},
                 "observed": {k: res.get(k) for k in ("spas", "ret_ms", "consumer", "found")}, "log_head": res.get("log", [])[:8]})
@@ -785,6 +858,11 @@ def replay(inp):
             return False, "imports"
         except BaseException as e:  # noqa
             return True, f"{type(e).__name__}: {e}"
+    if inp.get("kind") == "tidy-wake":
+        from common import Ctx
+        c = Ctx("C15", "quick", 0)
+        check_tidy_wakes(c, only=inp["wake_at_loop_step"])
+        return bool(c.violations), (c.violations[0]["observed"] if c.violations else "helper tasks gone")
     if inp.get("kind") == "sync-real":
         from common import Ctx
         c = Ctx("C15", "quick", 0)
